@@ -3,7 +3,9 @@
      o<k> object   d<k> defer   m<k> mark   { ... } block   ?T|?F|?<j> { ... } { ... } if/else
      L<n> { ... } loop   c<f> call   r return   b break   k continue
    Output, one line per program, tab separated:
-     mech_ok d t s <mech events> spec_ok <spec events> safe s11 s43 s44 fixed_ok d t s <fixed-machine events>
+     mech_ok d t s <mech events> spec_ok <spec events> s11 s43 s44 pinned_ok d t s <pinned-machine events>
+   (mech = machine of the current code; pinned = machine of the code before the fix commits, diagnosis
+   only; s11/s43/s44 = the program contains the shape the former defect needed)
    events are joined by ";" ; "FUEL" when the fuel (4000) is exhausted. *)
 open C06_model
 let rec nat_of_int n = if n <= 0 then O else S (nat_of_int (n - 1))
@@ -64,9 +66,9 @@ let () =
              | None -> "FUEL\t"
              | Some (ok, t) -> Printf.sprintf "%s\t%s" (b2s ok) (evs t)) in
     let ((a, b), c) = shapes p in
-    let fx = (match frun fuel p with
+    let pn = (match prun fuel p with
              | None -> "FUEL\t0\t0\t0\t"
              | Some (ok, st) -> Printf.sprintf "%s\t%d\t%d\t%d\t%s" (b2s ok) (List.length st.dfs) (List.length st.dts)
                                   (int_of_nat st.scd) (evs st.tr)) in
-    Printf.printf "%s\t%s\t%s\t%s\t%s\t%s\t%s\n" m s (b2s (safe_prog p)) (b2s a) (b2s b) (b2s c) fx
+    Printf.printf "%s\t%s\t%s\t%s\t%s\t%s\n" m s (b2s a) (b2s b) (b2s c) pn
   done with End_of_file -> ())
